@@ -8,7 +8,8 @@ KK == Hdr.kk
 MinI(a, b) == IF a < b THEN a ELSE b
 GapOKp(a, b, i1, g) == /\ ((i1 - KK) ^ (g + 1)) * b < a * (i1 ^ (g + 1))
                        /\ a * (i1 ^ g) <= b * ((i1 - KK) ^ g)
-GMaxP == 4            \* with i+1 <= 30 every product below stays under 2^31
+\* horizon of the gap clause: the largest g such that 64 * (i+1)^(g+1) stays under 2^31 (unit values are a/64)
+GMaxOf(i1) == CASE i1 <= 5 -> 9 [] i1 = 6 -> 8 [] i1 \in {7, 8} -> 7 [] i1 \in {9, 10} -> 6 [] i1 \in 11 .. 16 -> 5 [] OTHER -> 4
 P(e, base) == (IF Has(e, "alt") THEN "C19+" ELSE "") \o (IF e.op.name = "clear" THEN "C19+" ELSE "") \o base
 Failing(e) ==
     LET ok == e.res # "panic"
@@ -26,7 +27,8 @@ Failing(e) ==
        Cl("C19.clone", e.twin_ok) \cup LockStepClause(e) \cup
        (IF e.op.name = "add" /\ Has(e, "gap") /\ e.gap.u[1] > 0 /\ e.gap.gi + 1 <= 30 THEN
           \* gap clause: this add is at index idx = n_pre; the pending gap was determined by u at index gi from base
-          LET gs == {g \in 0 .. GMaxP : GapOKp(e.gap.u[1], e.gap.u[2], e.gap.gi + 1, g)}
+          LET GMaxP == GMaxOf(e.gap.gi + 1)
+              gs == {g \in 0 .. GMaxP : GapOKp(e.gap.u[1], e.gap.u[2], e.gap.gi + 1, g)}
               idx == e.n_pre
               accepted == \E x \in 1 .. Len(r) : r[x] = idx
               \* u so small that the gap exceeds GMaxP: u <= (1-p)^(GMaxP+1), then every item up to base + GMaxP is skipped
